@@ -44,7 +44,15 @@ normalize = cc.normalize
 
 
 def extra_checks(run):
-    return [cc.hook_note()]
+    import os
+    import re
+    from vlib import core
+    # K1-command-buffer: the private constant behind Conductor.CMD_BUF and the strictness of ensure_command_fits, re-read from the source
+    src = re.sub(r'\s+', ' ', open(os.path.join(core.REPO, 'src', 'driver_proxy.rs')).read())
+    ok = 'const COMMAND_BUFFER_LENGTH: usize = 512;' in src and 'if encoded_length > COMMAND_BUFFER_LENGTH {' in src
+    return [cc.hook_note(),
+            (ok, 'K1-command-buffer', 'driver_proxy.rs: COMMAND_BUFFER_LENGTH = 512, ensure_command_fits refuses encoded_length > 512 (model: CMD_BUF, add_illegal)'
+             if ok else 'COMMAND_BUFFER_LENGTH / ensure_command_fits changed: Conductor.add_illegal no longer describes the source')]
 
 
 def oracle_expr(case, mode, obs):
